@@ -12,7 +12,7 @@ class EngineLimit(Exception): pass
 VISIBLE_RT = {'vf_visible', 'vf_spin_wait', 'pthread_mutex_lock', 'pthread_mutex_unlock', 'pthread_mutex_trylock',
               '_ZNSt18condition_variable4waitERSt11unique_lockISt5mutexE', '_ZNSt18condition_variable10notify_oneEv',
               '_ZNSt18condition_variable10notify_allEv', 'pthread_cond_clockwait', 'pthread_cond_timedwait',
-              '_ZNSt6thread4joinEv', 'vf_thread_body', 'vf_join_all'}
+              '_ZNSt6thread4joinEv', 'vf_thread_body', 'vf_join_all', 'vf_wait_until_eq'}
 CV_WAIT = {'_ZNSt18condition_variable4waitERSt11unique_lockISt5mutexE', 'pthread_cond_clockwait', 'pthread_cond_timedwait'}
 EXC_HDR = 32
 
@@ -25,6 +25,8 @@ class Engine:
         s.tstate = [dict() for _ in range(nthreads + 1)]
         s.checks = {}           # msg -> [guard, kind]
         s.assumes = []
+        s.uassume = True        # conjunction of the harness-level __CPROVER_assume conditions executed so far (prefix semantics)
+        s.assume_failed = False
         s.witness = {}          # id -> guard
         s.obs = []              # (thread, guard, value)
         s.inputs = {}           # name -> z3 var
@@ -66,6 +68,7 @@ class Engine:
         for i in range(len(f.blocks)):
             if i not in f.rpo: f.rpo[i] = len(f.rpo)
         s.liveness(f)
+        f.regw = None
     @staticmethod
     def _uses(I):
         out = []
@@ -150,6 +153,31 @@ class Engine:
                 if I.op == 'invoke': live |= f.liveout[fr[1]]
             for r in live: out.add((d, fr[0], r))
         return out
+    def regwidths(s, f):
+        if f.regw is None:
+            rw = {}
+            def W(ty):
+                try: return s.width(ty)
+                except Exception: return None
+            for (pty, pn, pa) in f.params: rw[pn] = W(pty)
+            for b in f.blocks:
+                for I in b.ins:
+                    if I.res is None: continue
+                    op = I.op
+                    if op in ('call', 'invoke'): rw[I.res] = W(I.rty)
+                    elif op in ('alloca', 'getelementptr'): rw[I.res] = 64
+                    elif op == 'icmp' or op == 'fcmp': rw[I.res] = 1
+                    elif op == 'cmpxchg': rw[I.res] = (W(I.ty), 1)
+                    elif op == 'extractvalue':
+                        ty = I.v.ty
+                        for ix in I.idx:
+                            tt = s.L.res(ty); ty = tt.elems[ix] if isinstance(tt, TStruct) else tt.el
+                        rw[I.res] = W(ty)
+                    elif op == 'insertvalue': rw[I.res] = W(I.v.ty)
+                    elif op == 'landingpad': rw[I.res] = (64, 32)
+                    elif hasattr(I, 'ty'): rw[I.res] = W(I.ty)
+            f.regw = rw
+        return f.regw
     def merge_env(s, ctrl, ga, ea, gb, eb):
         """environment of the state obtained by merging (ga, ea) with the arriving (gb, eb) at control tuple ctrl:
         per frame, live registers that differ are merged with ite(gb, vb, va)"""
@@ -171,7 +199,7 @@ class Engine:
                 la, lb = da.get('!last'), db.get('!last')
                 if la is None or lb is None: d['!last'] = la or lb
                 elif la is lb: d['!last'] = la
-                elif la[2] != lb[2]: raise EngineLimit('merging paths that spin-wait on locations of different size')
+                elif la == 'poison' or lb == 'poison' or la[2] != lb[2]: d['!last'] = 'poison'   # differing watch sizes: must be re-established before a spin-wait
                 else: d['!last'] = (ite(gb, lb[0], la[0], 64), ite(gb, lb[1], la[1], la[2] * 8), la[2])
             for k in live:
                 va = da.get(k); vb = db.get(k)
@@ -179,7 +207,7 @@ class Engine:
                     if va is not None: d[k] = va
                     elif vb is not None: d[k] = vb
                     continue
-                d[k] = va if va is vb else ite(gb, vb, va, s.wshape(vb))
+                d[k] = va if va is vb else ite(gb, vb, va, s.regwidths(f).get(k) or s.wshape(vb))
             out.append(d)
         return out
     def wshape(s, v):
@@ -235,8 +263,10 @@ class Engine:
     def add_check(s, guard, msg, kind='assert'):
         if guard is False: return
         if s.concrete is not None:
-            if guard is True: s.cviol.append((msg, kind, s.stepno))
+            if guard is True and not s.assume_failed: s.cviol.append((msg, kind, s.stepno))
             return
+        guard = gand(guard, s.uassume)      # an assertion is checked under the assumptions executed BEFORE it
+        if guard is False: return
         c = s.checks.get(msg)
         if c is None: s.checks[msg] = [guard, kind]
         else: c[0] = gor(c[0], guard)
@@ -711,19 +741,30 @@ class Engine:
         if nm in CV_WAIT and len(fr) > 3:
             mfree = icmp('eq', s.mem.load(s.mutex_of_cvwait(f, I, nm), 4, True, 'mutex', check=False), 0, 32)
             wk = s.tstate[t].get('woken', False)
-            if nm != '_ZNSt18condition_variable4waitERSt11unique_lockISt5mutexE': wk = True   # timed wait may time out
+            if nm != '_ZNSt18condition_variable4waitERSt11unique_lockISt5mutexE':
+                wk = gor(wk, s.timed_out(f, I))          # timed wait: also enabled once the (ghost) clock reached the deadline
             elif s.opts.get('spurious'): wk = True
             return gand(mfree, wk)
         if nm == '_ZNSt6thread4joinEv':
-            return s.join_enabled(f, I)
+            tid = s.mem.load(s.val(f, I.args[0]), 8, True, 'thread::join', check=False)
+            en = False
+            for k, u in s.opts.get('thread_of_body', {}).items():
+                en = gor(en, gand(icmp('eq', tid, int(k) + 1, 64), s.ctrlsets[int(u)].get((('done',),), (False, None))[0]))
+            return en
+        if nm == 'vf_wait_until_eq':
+            return icmp('eq', s.mem.load(s.val(f, I.args[0]), 4, True, 'vf_wait_until_eq', check=False), s.val(f, I.args[1]), 32)
         if nm == 'vf_thread_body':
             k = s.val(f, I.args[0])
             return k < len(s.spawned) if isinstance(k, int) else False
         if nm == 'vf_join_all':
             return s.all_done_g(exclude=t)
         return True
-    def join_enabled(s, f, I):
-        return True
+    def timed_out(s, f, I):
+        ts = s.val(f, I.args[3])
+        sec = s.mem.load(ts, 8, True, 'timespec', check=False); ns = s.mem.load(binop('add', ts, 8, 64), 8, True, 'timespec', check=False)
+        deadline = binop('add', binop('mul', sec, 1000000000, 64), ns, 64)
+        now = s.tstate[s.NT].get('now', 0)
+        return icmp('sle', deadline, now, 64)
     def all_done_g(s, exclude):
         g = True
         for u in range(s.NT):
@@ -812,8 +853,12 @@ class Engine:
             n = A(0)
             if not isinstance(n, int):
                 al = alts_of(n)
-                if not all(isinstance(x, int) for _, x in al): raise Unsupported('symbolic allocation size in ' + f.name)
-                n = max(x for _, x in al)
+                if not all(isinstance(x, int) for _, x in al):
+                    mx = s.opts.get('sym_alloc_max')
+                    if not mx: raise Unsupported('symbolic allocation size in ' + f.name)
+                    s.add_check(gand(g, icmp('ugt', n, mx, 64)), 'ENGINE-LIMIT symbolic allocation larger than sym_alloc_max', 'limit')
+                    n = mx
+                else: n = max(x for _, x in al)
             a = s.mem.alloc(n, 'heap', 'heap#%d@%s' % (len(s.mem.regions), f.name[:50]), False, tid=t)
             r = s.mem.regions[-1]; r.live = g
             s.heap_live_note(r, g)
@@ -823,7 +868,11 @@ class Engine:
         if nm == '__CPROVER_assert':
             c = v2b(A(0)); s.add_check(gand(g, gnot(c)), s.mem.cstring(A(1)) or 'assert', 'assert'); return
         if nm == '__CPROVER_assume':
-            c = v2b(A(0)); s.assume(gor(gnot(g), c)); return
+            c = v2b(A(0))
+            if s.concrete is not None:
+                if g is True and c is False: s.assume_failed = True
+                return
+            s.uassume = name(gand(s.uassume, gor(gnot(g), c))); return
         if nm.startswith('nondet_'):
             ret(s.nondet(s.width(I.rty), nm)); return
         if nm == 'vf_input':       # named input shared across configurations: vf_input(id) -> u8..u64
@@ -833,7 +882,7 @@ class Engine:
         if nm == 'vf_enum':        # concretise a bounded symbolic value into guarded alternatives
             x, n = A(0), A(1); w = s.width(I.rty)
             if all(isinstance(y, int) for _, y in alts_of(x)): ret(x); return
-            s.assume(gor(gnot(g), z3.ULT(x, z3.BitVecVal(n, w))))
+            s.uassume = name(gand(s.uassume, gor(gnot(g), z3.ULT(x, z3.BitVecVal(n, w)))))
             ret(GV([(name(x == z3.BitVecVal(i, w)), i) for i in range(n)], w)); return
         if nm == 'vf_param':        # harness configuration parameter (concrete, from the harness config)
             i = A(0); ps = s.opts.get('params', [])
@@ -857,7 +906,7 @@ class Engine:
         if nm == 'vf_spin_wait':
             st = s.tstate[t]
             if t == s.NT or s.sequential: s.add_check(g, 'spin-wait in sequential section would hang', 'assert'); return []
-            if '!last' not in s.env[0]: raise EngineLimit('vf_spin_wait without a preceding atomic load')
+            if s.env[0].get('!last', 'poison') == 'poison': raise EngineLimit('vf_spin_wait without an unambiguous preceding atomic load')
             p, v, sz = s.env[0]['!last']
             if 'park' in st and st['park'][2] == sz:
                 op_, ov, osz = st['park']
@@ -887,7 +936,16 @@ class Engine:
             cv = A(0); m = s.mutex_of_cvwait(f, I, nm)
             cur = s.mem.load(m, 4, g, 'cv.wait')
             s.add_check(gand(g, icmp('ne', cur, t + 1, 32)), 'cv.wait without holding the mutex', 'assert')
-            if t == s.NT or s.sequential: s.add_check(g, 'cv.wait in sequential section would hang', 'assert'); return []
+            if t == s.NT or s.sequential:
+                if nm == '_ZNSt18condition_variable4waitERSt11unique_lockISt5mutexE':
+                    s.add_check(g, 'cv.wait in sequential section would hang', 'assert'); return []
+                # timed wait with nobody else running: time passes until the deadline, then it times out
+                ts = A(3)
+                sec = s.mem.load(ts, 8, g, 'timespec'); ns = s.mem.load(binop('add', ts, 8, 64), 8, g, 'timespec')
+                deadline = binop('add', binop('mul', sec, 1000000000, 64), ns, 64)
+                now = s.tstate[s.NT].get('now', 0)
+                s.tset(s.NT, 'now', ite(icmp('sgt', deadline, now, 64), deadline, now, 64), g, 64)
+                ret(110, 32); return
             s.mem.store(m, 4, 0, g, 'cv.wait release')
             s.tset(t, 'cvwait', cv, g, 64); s.tsetg(t, 'woken', False, g)
             fr = ctrl[0]
@@ -912,7 +970,27 @@ class Engine:
                     s.assume(gor(gnot(gand(g, anyw)), picked))
             if I.res is not None: ret(0, 32)
             return
-        if nm == 'vf_join_all': return
+        if nm in ('vf_join_all', 'vf_wait_until_eq'): return
+        if nm == 'vf_stop_here': return [((('done',),), g)]
+        if nm.startswith('_ZNSt6thread15_M_start_thread'):
+            if g is not True: raise Unsupported('std::thread created under a symbolic guard')
+            th, st = A(0), A(1)
+            state = s.mem.load(st, 8, g, 'thread ctor'); s.mem.store(st, 8, 0, g, 'thread ctor')
+            s.spawned.append(state); s.mem.store(th, 8, len(s.spawned), g, 'thread ctor'); return
+        if nm == 'vf_thread_body':
+            k = A(0)
+            if not isinstance(k, int) or k >= len(s.spawned): raise EngineLimit('vf_thread_body: no such std::thread')
+            state = s.spawned[k]
+            vt = s.mem.load(state, 8, g, 'thread state vtable'); fp = s.mem.load(binop('add', vt, 16, 64), 8, g, 'thread state vtable')
+            if not isinstance(fp, int) or fp not in s.addr2f: raise EngineLimit('vf_thread_body: cannot resolve _State::_M_run')
+            fn = s.addr2f[fp]; cf = s.m.funcs[fn]
+            return [(((fn, 0, 0),) + ctrl, g, {cf.params[0][1]: state})]
+        if nm == '_ZNSt6thread4joinEv':
+            s.mem.store(A(0), 8, 0, g, 'thread::join'); return
+        if nm == '_ZNSt6thread6detachEv':
+            s.mem.store(A(0), 8, 0, g, 'thread::detach'); return
+        if nm == '_ZNSt6chrono3_V212steady_clock3nowEv' or nm == '_ZNSt6chrono3_V212system_clock3nowEv':
+            return s.clock_intrinsic(t, f, I, 'vf_clock', g)
         if nm in EXC_FUNCS: return s.exc_intrinsic(t, f, ctrl, I, nm, g)
         if nm in ('abort', '_ZSt9terminatev', '__assert_fail', '_ZSt17__throw_bad_allocv', '_ZSt20__throw_length_errorPKc',
                   '_ZSt24__throw_out_of_range_fmtPKcz', '_ZSt20__throw_system_errori', '_ZSt25__throw_bad_function_callv',
@@ -956,15 +1034,15 @@ class Engine:
         """arbitrary non-decreasing clock: global ghost 'now' advanced by a fresh non-negative delta per call"""
         A = lambda k: s.val(f, I.args[k])
         now = s.tstate[s.NT].get('now', 0)
-        d = s.nondet(16, 'clock_delta')
+        d = s.nondet(8, 'clock_delta')
         if s.opts.get('clock_frozen'): d = 0
-        now2 = binop('add', now, s.cast('zext', d, TInt(16), TInt(64)), 64)
+        now2 = binop('add', now, s.cast('zext', d, TInt(8), TInt(64)), 64)
         s.tset(s.NT, 'now', now2, g, 64)
         if nm == 'vf_clock':
             if I.res is not None: s.setreg(f, I.res, now2, g, 64)
             return
         ts = A(1)   # struct timespec {sec, nsec}: now2 is in nanoseconds, base 1000 s
-        s.mem.store(ts, 8, binop('add', binop('udiv', now2, 1000000000, 64), 1000, 64), g, 'clock_gettime')
+        s.mem.store(ts, 8, binop('udiv', now2, 1000000000, 64), g, 'clock_gettime')
         s.mem.store(binop('add', ts, 8, 64), 8, binop('urem', now2, 1000000000, 64), g, 'clock_gettime')
         if I.res is not None: s.setreg(f, I.res, 0, g, 32)
         return
